@@ -105,6 +105,13 @@ pub fn known(case: &Case, _msg: &str) -> Option<&'static str> {
 }
 
 fn extra(cfg: &RunCfg, w: &mut Worker) {
+    corpus_subrun(cfg, w, |i, paras, width, v| {
+        grid_variant(v, i, width, false).map(|mut o| {
+            o.ii.clear();
+            o.si.clear();
+            Case::new("fill").text(paras[i].clone()).opt(o)
+        })
+    });
     // exhaustive small strings on the stated domain
     let max = if cfg.thorough { 6 } else { 4 };
     let threads = cfg.threads.max(1);
